@@ -20,7 +20,7 @@ const (
 
 // buildNetHTTP builds the net/http (or chi-as-plain-middleware) handler chain:
 // [recover] -> pre -> mux{ /n/ctrl: Handle ; /s/*: ScopeMiddleware -> route handlers }.
-func buildNetHTTP(cs *caseState, sp *spy, useChi bool) http.Handler {
+func buildNetHTTP(cs *caseState, sp godi.Provider, useChi bool) http.Handler {
 	o := cs.spec.Opts
 	look := func(r *http.Request) *reqState { return cs.lookup(r.Header.Get(hdrReq)) }
 
